@@ -273,3 +273,19 @@ func (o *V3Oracle) Score(a Assignment) V3Result {
 	r.Expl, _ = o.Exploitability(a["AV"], a["AC"], a["PR"], a["UI"], a["S"]).Float64()
 	return r
 }
+
+// EnvInnerExact returns min(1.08?*(ModifiedImpact+ModifiedExploitability),10)
+// exactly, ok=false when ModifiedImpact <= 0 (self-tests).
+func (o *V3Oracle) EnvInnerExact(mav, mac, mpr, mui, ms, mc, mi, ma, cr, ir, ar string) (*big.Rat, bool) {
+	mimp, _ := o.ModifiedImpact(mc, mi, ma, cr, ir, ar, ms)
+	if mimp.Sign() <= 0 {
+		return nil, false
+	}
+	x, _ := o.outer(mimp, o.Exploitability(mav, mac, mpr, mui, ms), ms)
+	return x, true
+}
+
+// TemporalExact3 returns k/10 * e * rl * rc exactly.
+func TemporalExact3(k int64, e, rl, rc string) *big.Rat {
+	return rmul(big.NewRat(k, 10), big.NewRat(w3E[e], 100), big.NewRat(w3RL[rl], 100), big.NewRat(w3RC[rc], 100))
+}
